@@ -276,4 +276,48 @@ def NodeList.getMatchingNode (nl : NodeList) (p : Node) : MatchResult :=
     | [n] => .found n
     | _ => .ambiguous
 
+/-! ### sequences of operations: a register machine over node lists -/
+
+/-- instructions of a register machine whose registers hold node lists; arguments are arbitrary -/
+inductive Instr where
+  | union (dst a b : Nat)
+  | intersect (dst a b : Nat)
+  | add (a b : Nat)
+  | removeNodes (a : Nat) (ids : List String)
+  | relateNode (a : Nat) (n : Node) (at_ : String) (ty : Int)
+  | relateList (a b : Nat) (at_ : String) (ty : Int)
+  | nodeGraph (dst a : Nat) (id : String)
+  | nodeSiblings (dst a : Nat) (id : String)
+  | nodeDescendants (dst a : Nat) (id : String) (depth : Int)
+  | purlType (dst a : Nat) (t : String)
+
+def reg (regs : List NodeList) (i : Nat) : NodeList := regs.getD i {}
+
+/-- one step; an operation that reports an error or returns nil leaves the registers alone -/
+def exec (regs : List NodeList) : Instr → List NodeList
+  | .union dst a b => regs.set dst ((reg regs a).union (reg regs b))
+  | .intersect dst a b => regs.set dst ((reg regs a).intersect (reg regs b))
+  | .add a b => regs.set a ((reg regs a).add (reg regs b))
+  | .removeNodes a ids => regs.set a ((reg regs a).removeNodes ids)
+  | .relateNode a n at_ ty =>
+    match (reg regs a).relateNodeAtID n at_ ty with
+    | some r => regs.set a r
+    | none => regs
+  | .relateList a b at_ ty =>
+    match (reg regs a).relateNodeListAtID (reg regs b) at_ ty with
+    | some r => regs.set a r
+    | none => regs
+  | .nodeGraph dst a id =>
+    match (reg regs a).nodeGraph id with
+    | some r => regs.set dst r
+    | none => regs
+  | .nodeSiblings dst a id =>
+    match (reg regs a).nodeSiblings id with
+    | some r => regs.set dst r
+    | none => regs
+  | .nodeDescendants dst a id depth => regs.set dst ((reg regs a).nodeDescendants id depth)
+  | .purlType dst a t => regs.set dst ((reg regs a).getNodesByPurlType t)
+
+def run (regs : List NodeList) (prog : List Instr) : List NodeList := prog.foldl exec regs
+
 end Protobom
